@@ -336,6 +336,31 @@ func init() {
 		} else {
 			c.Fail("C11f/AddTrackedCu/accumulates-both-cases", c.P.Pos(atc.Pos()), "expected the new-entry and existing-entry stores, found "+itoa(nacc))
 		}
+		c.Rule("C11g participation is taken off what the provider gets: every successful return of ContributeToValidatorsAndCommunityPool hands back reward − community part − validators part (both parts of the one CalculateValidatorsAndCommunityParticipationRewards call); the unreduced reward is returned only together with an error — otherwise the parts already transferred are paid a second time through RewardProvidersAndDelegators")
+		if cv := c.Fn("x/rewards/keeper.Keeper.ContributeToValidatorsAndCommunityPool"); cv != nil {
+			n, bad := 0, ""
+			var at ssa.Instruction
+			for _, s := range c.SuccessReturns(cv) {
+				ret := s.Instr.(*ssa.Return)
+				for _, leaf := range phiLeaves(RetVal(ret, 0)) {
+					n++
+					d := ir.DescN(unconv(leaf), 12)
+					const sub = "call(github.com/cosmos/cosmos-sdk/types.Coin.SubAmount)("
+					calc := "call(x/rewards/keeper.Keeper.CalculateValidatorsAndCommunityParticipationRewards)("
+					if !(strings.HasPrefix(d, sub+sub) && strings.Contains(d, calc) && strings.Contains(d, ")#0") && strings.Contains(d, ")#1")) {
+						bad, at = trunc(d, 140), ret
+					}
+				}
+			}
+			switch {
+			case n == 0:
+				c.Undecided("C11g: ContributeToValidatorsAndCommunityPool has no successful return")
+			case bad != "":
+				c.Fail("C11g/ContributeToValidatorsAndCommunityPool/returns-reward-minus-both-parts", c.P.InstrPos(at), "a successful return hands back "+bad+" instead of reward − community part − validators part: participation that was already transferred is not deducted from what the provider and its delegators are then paid")
+			default:
+				c.OK("C11g/ContributeToValidatorsAndCommunityPool/returns-reward-minus-both-parts", c.P.Pos(cv.Pos()), itoa(n)+" successful return value(s), each reward.SubAmount(community).SubAmount(validators)")
+			}
+		}
 		c.NotCovered("the numeric bound itself; what happens to the rounding remainder and to credit above the cap (it stays in the module account); timer scheduling (exactly one payout per month)")
 	})
 }
